@@ -44,6 +44,11 @@ def call(kind, n):
         return "(valuesfrompanic %s)" % " ".join(rows)
     if kind == "selectfrom":
         return "(selectfrom (select%s (from (t 75))))" % "".join(" (col (col %s))" % hexs(c) for c in COLS[:n])
+    if kind == "selectfromstar":
+        # a select list of n items one of which is a wildcard (`*` or `t.*`): still n items for the count check
+        items = [" (col (col %s))" % hexs(c) for c in COLS[:n]]
+        items[STYLE[0] % n] = " (col (star))" if STYLE[0] % 2 == 0 else " (col (tstar 75))"
+        return "(selectfrom (select%s (from (t 75))))" % "".join(items)
     if kind == "ordefault":
         return "(ordefault)"
     if kind == "ordefaultmany":
@@ -54,6 +59,7 @@ def call(kind, n):
 ALPHABET = ([("columns", n) for n in range(0, 4)] + [("values", n) for n in range(0, 4)] +
             [("valuesit", n) for n in range(0, 4)] + [("valuespanicit", n) for n in range(1, 3)] +
             [("valuespanic", n) for n in range(0, 3)] + [("selectfrom", n) for n in range(1, 4)] +
+            [("selectfromstar", n) for n in range(1, 3)] +
             [("valuesfrompanic", 2), ("ordefault", 0), ("ordefaultmany", 2)] +
             [("vfpr", (2, 1)), ("vfpr", (2, 3)), ("vfpr", (1, 2)), ("vfpr", (2, 0)), ("vfpr", (1, 1))])
 HIST = {}
@@ -122,7 +128,7 @@ def simulate(h):
                     return log, True, recolumn
                 has_source = has_source or m > 0
                 accept_row(m)
-        elif k == "selectfrom":
+        elif k in ("selectfrom", "selectfromstar"):
             if n == ncols:
                 log.append("ok")
                 has_source = True
